@@ -217,7 +217,7 @@ class C15(Spec):
 
     def gen(self, tier, rng):
         cases = boundary_cases() + bracket_cases(rng, tier)
-        count = 2600 if tier == 'quick' else 26000
+        count = 1600 if tier == 'quick' else 26000
         k = 0
         while k < count:
             method = METHODS[k % len(METHODS)]
@@ -280,7 +280,7 @@ def main(tier):
                (cases[i].get('cmp', 'exact') == grp)]
         got = [spec.got_term(cases[i]) for i in idx]
         want = [spec.want_term(cases[i], results[i]) for i in idx]
-        bad, errors, cmd = core.coq_mismatches(wd, spec.imports, got, want, shard=150, tol=tol, tag='cases_' + grp)
+        bad, errors, cmd = core.coq_mismatches(wd, spec.imports, got, want, shard=320, tol=tol, tag='cases_' + grp)
         v.add_correspondence('model-vs-implementation (%s)' % grp, len(idx), len(bad),
                              'E3 exact' if tol is None else 'E4 rel 1e-9', cmd)
         if errors:
